@@ -321,9 +321,12 @@ def _merge(ancestor, our, their, allowed=None):
         )
     unmergeable = list(diff(patch_ours_first, patch_theirs_first))
     if unmergeable:
-        unmergeable_paths = []
-        for paths in patch(unmergeable, {}):
-            unmergeable_paths.append(posixpath.join(*paths))
+        missing = object()
+        unmergeable_paths = [
+            posixpath.join(*key)
+            for key in {**patch_ours_first, **patch_theirs_first}
+            if patch_ours_first.get(key, missing) != patch_theirs_first.get(key, missing)
+        ]
         raise MergeError(
             "unable to auto-merge the following paths:\n" + "\n".join(unmergeable_paths)
         )
